@@ -24,9 +24,10 @@ NoTok(c)    == [raised |-> c.raised, plots |-> [k \in 1..Len(c.plots) |->
 DriftAt(tr, k) == LET a == Act(tr, k)
                       t == tr.steps[k].t
                       i == ImplStep(Pre(tr, k), a)
-                  IN CASE a.op = "add"     -> NoTok(t) # NoTok(i)
-                       [] a.op = "replace" -> Skeleton(t) # Skeleton(i)
-                       [] OTHER            -> FALSE
+                  IN IF t.raised # "" \/ i.raised # "" THEN t.raised # i.raised      \* a failed call: only the exception class is compared
+                     ELSE CASE a.op = "add"     -> NoTok(t) # NoTok(i)
+                            [] a.op = "replace" -> Skeleton(t) # Skeleton(i)
+                            [] OTHER            -> FALSE
 Drift(tr)   == Cardinality({k \in 1..Len(tr.steps) : DriftAt(tr, k)})
 BadTraces   == {n \in 1..Len(T) : Bad(T[n]) # {}}
 ASSUME \A n \in BadTraces : PrintT(<<"VERDICT", ToJson([id |-> T[n].id, bad |-> Bad(T[n])])>>)
